@@ -61,6 +61,17 @@ def c07(ctx):
     ctx.exhaustive = False
 
 
+def c03(ctx):
+    ctx.rule = ("family C03: all trees with up to three operators built by 36 ways of putting an operator around a sub-tree (binary operators on "
+                "either side, !, &, call, multi-select, index, the five projection kinds as base / right-hand side / condition) over 4 atoms; "
+                "each tree spelled minimally parenthesised, fully parenthesised and with quoted identifiers + mixed whitespace, replayed on 8 "
+                "documents chosen to separate alternative groupings; non-trivial: >= 2 operator nodes (expression size >= 4) and allowed set not "
+                "{ok null}; distinct by (source text, document)")
+    eval_family(ctx, "C03", {Q: (1, 3), T: (1, 1)})
+    negative(ctx, "C03", "VPDot40", (1, 1))
+    ctx.exhaustive = ctx.tier == T
+
+
 PARSE_CATS = EVAL_CATS + ("compile-accepted",)
 
 
@@ -98,6 +109,56 @@ def c04(ctx):
     gen_parse(ctx, "mutants", "C01", 0, (600, 4000000) if quick else (11, 100000))
     gen_parse(ctx, "mutants", "C09n", 0, (12, 1) if quick else (1, 1))
     ctx.exhaustive = False
+
+
+TEXT_CATS = PARSE_CATS + ("synerr-expression", "synerr-offset", "synerr-highlight", "mustcompile", "compile-timeout", "timeout")
+
+
+def gen_text(ctx, mode, maxlen, stride, cats=TEXT_CATS, shards=None, contract=True):
+    consts = {"Mode": mode, "MaxLen": maxlen}
+    consts.pop("Stride3", None)
+    files = C.generate(ctx, "Gen_Text", mode, consts, shards or (8 if ctx.tier == Q else 16), stride=stride, timeout=3000,
+                       name="Gen_Text_%s_%d" % (mode, maxlen), family_constant=False)
+    C.replay(ctx, files, set(cats), extra=["-contract"] if contract else [])
+    ctx.bounds["text/%s/%d" % (mode, maxlen)] = {"stride": stride}
+
+
+def mc_lex(ctx, maxlen, alpha="coarse", dev="{}", negative=False, invs=None, name=None):
+    C.model_check(ctx, "MC_Lex", {"Dev": dev, "MaxLen": maxlen, "AlphaName": alpha},
+                  invariants=invs or ["NoPanic", "OffsetOK", "QuotedId", "RawString", "Literal", "Unquoted", "Whitespace", "Pipeline"],
+                  spec="Spec", name=name or "MC_Lex_%s_%d" % (alpha, maxlen), workers=C.NCPU, timeout=3000, negative=negative)
+
+
+def c14(ctx):
+    ctx.rule = ("for every string s up to 3 (quick) / 4 (thorough) characters over a 32-symbol alphabet of character classes (letter, digit, _, "
+                "space, the three quote characters, backslash, brackets, punctuation, u, control, tab, DEL, U+0080, 2/3/4-byte runes, U+FFFD): "
+                "the quoted identifier, raw string, JSON literal, multi-select key, length() and == spelled from s, each with the value the "
+                "property assigns; every 2-character string over all ASCII + boundary runes for identifier membership; non-trivial: the allowed "
+                "set is not {ok null} (every C14 spelling denotes a non-null value); distinct by (source text, document)")
+    quick = ctx.tier == Q
+    mc_lex(ctx, 3 if quick else 4)
+    mc_lex(ctx, 2, alpha="fine", invs=["NoPanic", "OffsetOK", "Unquoted", "QuotedId", "Pipeline"])
+    gen_text(ctx, "c14", 3 if quick else 4, 1 if quick else 1, cats=EVAL_CATS, contract=False)
+    gen_text(ctx, "fine", 2, 1, cats=PARSE_CATS, contract=False)
+    gen_text(ctx, "ident", 0, 1, cats=PARSE_CATS, contract=False)
+    ctx.exhaustive = True
+
+
+def c17(ctx):
+    ctx.rule = ("every string up to 3 (quick) / 4 (thorough) characters over the 32-symbol class alphabet, every string up to 2 characters over "
+                "ASCII + boundary runes + raw invalid bytes, and the token strings / near-miss mutants of C04: Compile returns exactly one of "
+                "(expression, nil) / (nil, error); SyntaxError carries the input and an offset in range, HighlightLocation is the caret "
+                "rendering, MustCompile panics iff Compile fails and names the expression; the offset the specification predicts is compared "
+                "as drift; non-trivial: the expression fails to compile; distinct by source text")
+    quick = ctx.tier == Q
+    mc_lex(ctx, 3 if quick else 4, invs=["NoPanic", "OffsetOK", "Pipeline"])
+    mc_parse(ctx, 3 if quick else 4)
+    gen_text(ctx, "coarse", 3 if quick else 4, 1 if quick else 1)
+    gen_text(ctx, "fine", 2, 2 if quick else 1)
+    gen_text(ctx, "ident", 0, 1)
+    C.replay(ctx, C.generate(ctx, "Gen_Parse", "C01", {"Mode": "strings", "MaxLen": 3, "Stride3": 1}, 8, stride=1, name="Gen_Parse_strings_3"),
+             set(TEXT_CATS), extra=["-contract"])
+    ctx.exhaustive = True
 
 
 def c08(ctx):
@@ -162,5 +223,5 @@ def c16(ctx):
 
 
 PIPELINES = {
-    "C01": c01, "C02": c02, "C04": c04, "C07": c07, "C08": c08, "C09": c09, "C10": c10, "C11": c11, "C16": c16,
+    "C01": c01, "C02": c02, "C03": c03, "C04": c04, "C14": c14, "C17": c17, "C07": c07, "C08": c08, "C09": c09, "C10": c10, "C11": c11, "C16": c16,
 }
